@@ -175,6 +175,9 @@ func (r *wlruRunner) Step(line string) string {
 
 // ---------------------------------------------------------------------------------------------
 
+// lruMini selects the smallest alphabet (longest exhaustive sequences)
+var lruMini = false
+
 // op templates of the exhaustive part; %k = key slot
 type lruTmpl struct {
 	format string
@@ -182,6 +185,9 @@ type lruTmpl struct {
 }
 
 func lruAlphabet(full bool) []lruTmpl {
+	if !full && lruMini {
+		return []lruTmpl{{"add %k %v 2", true}, {"add %k %v 3", true}, {"get %k", true}, {"rmoldest", false}, {"resize 4 2", false}}
+	}
 	a := []lruTmpl{
 		{"add %k %v 1", true}, {"add %k %v 2", true}, {"add %k %v 5", true},
 		{"get %k", true}, {"rmoldest", false}, {"resize 2 1", false}, {"purge", false},
@@ -205,17 +211,24 @@ func enumLru(w *bufio.Writer, alphabet []lruTmpl, length int, cfg string, caseNo
 			return
 		}
 		if depth == length {
-			kind := "simple"
-			if *caseNo%2 == 1 {
-				kind = "sync"
-			}
-			fmt.Fprintf(w, "# case %d exhaustive len=%d\nnew %s %s\n", *caseNo, length, kind, cfg)
+			// wlru.Cache only adds a lock and the two ...OrAdd calls: sequences containing those run
+			// against both caches, the others alternate
+			kinds := []string{"simple", "sync"}[*caseNo%2 : *caseNo%2+1]
 			for _, o := range ops {
-				w.WriteString(o)
-				w.WriteByte('\n')
+				if strings.HasPrefix(o, "coa") || strings.HasPrefix(o, "poa") {
+					kinds = []string{"simple", "sync"}
+					break
+				}
 			}
-			w.WriteString("keys\ntotal\n")
-			*caseNo++
+			for _, kind := range kinds {
+				fmt.Fprintf(w, "# case %d exhaustive len=%d\nnew %s %s\n", *caseNo, length, kind, cfg)
+				for _, o := range ops {
+					w.WriteString(o)
+					w.WriteByte('\n')
+				}
+				w.WriteString("keys\ntotal\n")
+				*caseNo++
+			}
 			return
 		}
 		for _, t := range alphabet {
@@ -317,7 +330,9 @@ func genWlru(r *Rand, n int, tier string, w *bufio.Writer) {
 	if tier == "thorough" {
 		enumLru(w, lruAlphabet(false), 5, "4 2", &c, n)
 		enumLru(w, lruAlphabet(true), 4, "4 2", &c, n)
+		lruMini = true
 		enumLru(w, lruAlphabet(false), 6, "5 3", &c, n)
+		lruMini = false
 	} else {
 		enumLru(w, lruAlphabet(false), 3, "4 2", &c, n)
 		enumLru(w, lruAlphabet(true), 3, "4 2", &c, n)
